@@ -3,6 +3,7 @@
 dependency table is copied from /repo/Cargo.toml, plus loom. /repo itself stays untouched."""
 import sys, os, tomllib, json
 out = sys.argv[1]
+engine = sys.argv[2] if len(sys.argv) > 2 else "loom"
 src = tomllib.load(open("/repo/Cargo.toml", "rb"))
 def fmt(v):
     if isinstance(v, str):
@@ -18,7 +19,10 @@ lines = ['[package]', 'name = "sourcemap"', f'version = {fmt(src["package"]["ver
          '[lib]', 'path = "/repo/src/lib.rs"', '', '[dependencies]']
 for k, v in src.get("dependencies", {}).items():
     lines.append(f"{k} = {fmt(v)}")
-lines.append('loom = { version = "0.7.2", features = ["checkpoint"] }')
+if engine == "loom":
+    lines.append('loom = { version = "0.7.2", features = ["checkpoint"] }')
+else:
+    lines.append('shuttle = "0.9.3"')
 lines += ['', '[features]']
 for k, v in src.get("features", {}).items():
     lines.append(f"{k} = {fmt(v)}")
